@@ -66,3 +66,95 @@ Example c06_witness :
   (rs, map fst (sentL (lg s)), map fst (sentA (lg s))) =
   ([OOk 3; OOk 3; OOk 1; OOk 9; OOk 0; OOk 1], [0; 1; 2; 5], [3]).
 Proof. vm_compute. reflexivity. Qed.
+
+(* ==== added after the audit of 2026-10-02 (selftest/audit/REPORT-2026-10-02.md) ==== *)
+Require Import Cadence.Proofs.AuditW.
+
+(* [A.19] what holds for zero-length lines (empty metric, empty terminator), which the identity
+   ledgers filter out: with a capacity > 0 the emit answers Ok(0), attempts no write, consumes
+   no outcome and leaves the buffer and [written] alone - only the ghost list grows *)
+Theorem c06_zero_line_emit : forall c script ops rs s n x s',
+  0 < c -> run_from (init c [] script) 0 ops = (rs, s) -> step s n (Emit []) = (x, s') ->
+  x = OOk 0 /\ lg s' = lg s /\ sc s' = sc s /\ bbuf s' = bbuf s /\ written s' = written s /\
+  bids s' = bids s ++ [(n, [])].
+Proof.
+  intros c script ops rs s n x s' C R. destruct (reach_inv _ _ _ _ _ _ R) as (I & Cs & E & _).
+  apply zero_line_emit; [exact I|exact E|now rewrite Cs].
+Qed.
+
+(* ... and why the identity statements cannot include them: an acknowledged zero-length metric
+   (operation 0) is forgotten by the flush of an empty buffer; behind a non-empty buffer
+   (operation 3) it travels in the label of the next write; with capacity 0 it is written,
+   as an empty datagram, twice *)
+Example c06_zero_line_forgotten :
+  let '(rs, s) := run_from (init 4 [] []) 0 [Emit []; Flush; Emit [7%N]; Emit []; Flush] in
+  (rs, map (fun a => (a_bytes a, match a_lab a with Lines ms => map fst ms | Alone g => [fst g] end)) (lg s),
+   map fst (sentL (lg s) ++ bids s), map fst (acked 0 [Emit []; Flush; Emit [7%N]; Emit []; Flush] rs)) =
+  ([OOk 0; OOk 0; OOk 1; OOk 0; OOk 0], [([7%N], [2; 3])], [2; 3], [0; 2; 3]).
+Proof. vm_compute. reflexivity. Qed.
+
+Example c06_zero_line_twice :
+  let '(rs, s) := run_from (init 0 [] []) 0 [Emit []] in
+  (rs, map (fun a => (a_bytes a, a_out a)) (lg s), map fst (sentL (lg s)), map fst (bids s)) =
+  ([OOk 0], [([], WOk); ([], WOk)], [0; 0], []).
+Proof. vm_compute. reflexivity. Qed.
+
+(* ==== added after the audit of 2026-10-02 (selftest/audit/REPORT-2026-10-02.md) ==== *)
+(* ------------------------------------------------------------------ audit A.6 additions
+   "(on the sink, or through the client, including through a queuing wrapper)".  AuditS defines
+   client_flush (StatsdClient::flush = self.sink.flush()) and queuing_flush (QueuingMetricSink::flush
+   = self.wrapped.flush(), on the caller's thread), the four routes [via] a flush can take, and the
+   histories [hop] / hstep / hrun_from / hrun in which every flush names its route; [plain] forgets
+   the route. *)
+Require Import Cadence.Proofs.AuditS.
+
+(* whatever the route, a flush is the writer's own flush step *)
+Theorem c06_flush_routes : forall v s n, flush_via v s n = step s n Flush.
+Proof. exact flush_via_is_flush. Qed.
+
+(* so a history with routed flushes IS the writer history with plain flushes at the same places:
+   same answers, same final state, same log of underlying writes - for every starting state,
+   capacity, terminator and fault script.  Every theorem about run_from / run applies verbatim *)
+Theorem c06_wrapped_history : forall ops s n, hrun_from s n ops = run_from s n (map plain ops).
+Proof. exact hrun_from_plain. Qed.
+Theorem c06_wrapped_life : forall c e script ops, hrun c e script ops = run c e script (map plain ops).
+Proof. exact hrun_plain. Qed.
+
+(* c06_ack, c06_once_in_order, c06_flush_point, c06_flush_idem read through the wrappers *)
+Theorem c06_wrapped_ack : forall c e ops rs s,
+  hrun_from (init c e []) 0 ops = (rs, s) ->
+  Forall2 (fun o x => x = OOk (match o with HEmit m => length m | HFlush _ => 0 end)) ops rs.
+Proof. exact wrapped_ack. Qed.
+
+Theorem c06_wrapped_once_in_order : forall c e ops rs s,
+  hrun c e [] ops = (rs, s) ->
+  filter (nzb e) (sentL (lg s)) = filter (nzb e) (filter (fitg c e) (emitted 0 (map plain ops))) /\
+  sentA (lg s) = filter (fun g => negb (fitg c e g)) (emitted 0 (map plain ops)) /\
+  Forall (fun a => a_out a = WOk) (lg s) /\
+  NoDup (map fst (emitted 0 (map plain ops))).
+Proof. exact wrapped_once_in_order. Qed.
+
+Theorem c06_wrapped_flush_point : forall c e script ops v rs k s,
+  hrun_from (init c e script) 0 (ops ++ [HFlush v]) = (rs ++ [OOk k], s) -> length rs = length ops ->
+  bbuf s = [] /\ bids s = [] /\ written s = 0 /\
+  filter (nzb e) (sentL (lg s)) = filter (nzb e) (filter (fitg c e) (acked 0 (map plain ops) rs)) /\
+  sentA (lg s) = filter (fun g => negb (fitg c e g)) (acked 0 (map plain ops) rs).
+Proof. exact wrapped_flush_point. Qed.
+
+Theorem c06_wrapped_flush_idem : forall c e script ops rs s n v k s1 n' v' x s2,
+  hrun_from (init c e script) 0 ops = (rs, s) ->
+  flush_via v s n = (OOk k, s1) -> flush_via v' s1 n' = (x, s2) ->
+  x = OOk 0 /\ lg s2 = lg s1.
+Proof. exact wrapped_flush_idem. Qed.
+
+(* non-vacuity: the four routes in one life over a writer whose first write fails; the flush
+   through the client reports the error and keeps the line, the one through the queuing wrapper
+   sends it with the next, the last finds nothing to do *)
+Example c06_wrapped_witness :
+  let ops := [HEmit [1;2;3]; HFlush ViaClient; HEmit [4]; HFlush ViaQueuing; HEmit [5;6];
+              HFlush ViaClientQueuing; HFlush Direct; HEmit [7]]%N in
+  let '(rs, s) := hrun 8 [10%N] [WErr 3%N] ops in
+  (rs, map a_bytes (lg s), map a_out (lg s), map fst (sentL (lg s))) =
+  ([OOk 3; OErr 3%N; OOk 1; OOk 0; OOk 2; OOk 0; OOk 0; OOk 1],
+   [[1;2;3;10]; [1;2;3;10;4;10]; [5;6;10]; [7;10]]%N, [WErr 3%N; WOk; WOk; WOk], [0; 2; 4; 7]).
+Proof. vm_compute. reflexivity. Qed.
